@@ -82,7 +82,7 @@ class Injector:
 
     def __init__(self, k: int | None, exc: str = "InjectedFault", mode: str = "call",
                  site: str | None = None, event: str = "call", collect_sites: bool = False,
-                 gate=None):
+                 gate=None, on_fire=None):
         self.k = k
         self.exc = exc
         self.mode = mode
@@ -95,6 +95,7 @@ class Injector:
         self.collect_sites = collect_sites
         self.sites: dict = {}
         self.gate = gate  # optional callable() -> bool: only count while True
+        self.on_fire = on_fire  # optional callable() -> picklable probe value, evaluated when the fault fires
         self._want_ret = mode == "callret" or event == "return"
         self._excf: set = set()  # frames in which an exception event was seen
 
@@ -147,6 +148,11 @@ class Injector:
                 return  # try the next eligible boundary
             self.fired = {"n": self.n, "step": self.steps, "event": ev,
                           "site": boot.site_of(frame.f_code), "exc": self.exc}
+            if self.on_fire is not None:
+                try:
+                    self.fired["probe"] = self.on_fire()
+                except Exception:  # noqa: BLE001 - probes never decide anything
+                    self.fired["probe"] = None
             raise EXC_TYPES[self.exc](f"injected {self.exc} at {ev} #{self.n}")
 
 
